@@ -152,6 +152,10 @@ def check_remote(case, rec):
         classes.append("args:non-plain")
     if spec.get("attrs"):
         classes.append("attrs:extra")
+    _route = case.get("route") or [0, 0]
+    if (_route[1] and kind != "KeyboardInterrupt") or (_route[0] and kind != "SystemExit"):
+        classes.append("another-class-routed-locally" if kind not in ("KeyboardInterrupt", "SystemExit") else
+                       "the-OTHER-of-KeyboardInterrupt/SystemExit-routed-locally")
     nontrivial = bool(spec["args"]) or bool(spec.get("attrs")) or snd != [1, 1] or rcv != [0, 0] or kind.startswith("custom:")
     key = dict(case)
     key["shape"] = [a[0] for a in spec["args"]]
@@ -161,8 +165,13 @@ def check_remote(case, rec):
         def exposed_boom(self):
             raise build_exc(spec)
 
+    # the two "route locally" switches, set for the class that is NOT being raised ("every built-in exception class not
+    # routed locally by configuration" must surface at the requester)
+    route = case.get("route") or [0, 0]
     cfg_snd = {"include_local_traceback": bool(snd[0]), "include_local_version": bool(snd[1]),
-               "propagate_KeyboardInterrupt_locally": False, "propagate_SystemExit_locally": False}
+               "propagate_KeyboardInterrupt_locally": bool(route[1]) and kind != "KeyboardInterrupt",
+               "propagate_SystemExit_locally": bool(route[0]) and kind != "SystemExit"}
+
     cfg_rcv = {"instantiate_custom_exceptions": bool(rcv[0]), "import_custom_exceptions": bool(rcv[1])}
     CANARY["imported"] = CANARY["init"] = 0
     fails = []
@@ -364,7 +373,8 @@ def exc_specs():
         attrs = st.lists(st.tuples(st.sampled_from(["detail", "code2", "_secret", "_hidden", "payload"]),
                                    st.one_of(_plain, _nonplain)).map(list), max_size=2, unique_by=lambda t: t[0])
         return st.fixed_dictionaries({"cls": st.just(name), "args": args, "attrs": attrs, "kw": st.booleans()})
-    builtin = st.sampled_from(BUILTIN_EXC).flatmap(for_class)
+    builtin = st.one_of(st.sampled_from(BUILTIN_EXC), st.sampled_from(BUILTIN_EXC), st.sampled_from(BUILTIN_EXC),
+                        st.sampled_from(["KeyboardInterrupt", "SystemExit"])).flatmap(for_class)
     custom = st.fixed_dictionaries({"cls": st.sampled_from(["custom:loaded", "custom:lazy", "custom:nowhere", "custom:shadow"]),
                                     "args": st.lists(_argv, max_size=2), "attrs": st.just([]), "kw": st.just(False)})
     return st.one_of(builtin, builtin, custom)
@@ -372,7 +382,7 @@ def exc_specs():
 
 def remote_cases():
     sw = st.lists(st.integers(0, 1), min_size=2, max_size=2)
-    return st.fixed_dictionaries({"part": st.just("remote"), "exc": exc_specs(), "snd": sw, "rcv": sw})
+    return st.fixed_dictionaries({"part": st.just("remote"), "exc": exc_specs(), "snd": sw, "rcv": sw, "route": sw})
 
 
 def payload_cases():
